@@ -207,14 +207,72 @@ def hyp_shard(ctx, shard):
     hyp_search(ctx, "plain-text", plain_cases(), body_plain, n_plain, shard=shard)
 
 
+# ------------------------------------------------------------------ one string under several rules, in one process
+FLOAT_FAMILY = ("float", "nonneg", "ew", "ns")
+
+
+def family_rules():
+    return [rn for rn in typed_rules() if desc(rn)["typed"][0] in FLOAT_FAMILY]
+
+
+@st.composite
+def cross_cases(draw):
+    """a decimal string and an order of the float-family rules: the verdict of (rule, string) follows from the value and
+    the rule's bounds, whatever was validated before"""
+    s = draw(st.one_of(contentgen._decimal(exp=False), contentgen._decimal(), contentgen._near("ew"), contentgen._near("ns"),
+                       st.sampled_from(["100", "180", "-180", "90", "-90", "90.5", "-120.5", "179.999", "-0.0", "0", "91",
+                                        "-91", "180.0", "1e2", "1000", "-1"])))
+    order = draw(st.permutations(family_rules()))
+    k = draw(st.integers(2, len(order)))
+    return s, list(order[:k])
+
+
+def cross_shard(ctx, shard):
+    n = (4800 if ctx.quick else 160000) // 16
+
+    def body(c):
+        s, order = c
+        vs = []
+        for rn in order:
+            kind = desc(rn)["typed"][0]
+            word = words_for(rn)[0]
+            v = verdict(rn, s, bool(word), contentgen._float_verdict(kind, s))
+            vs.append(v)
+            try:
+                check_case(rn, s, word, v, "cross-rule")
+            except Violation as e:
+                raise Violation(e.bucket, f"after validating the same string under {order[:len(vs) - 1]}: {e.message}",
+                                {"content": s, "sequence": order[:len(vs)]})
+        flips = any(a == "A" and b == "R" for a, b in zip(vs, vs[1:]))
+        ctx.note(key=(s, tuple(order)), nontrivial=flips,
+                 cls="accepted-by-one-rule-then-rejected-by-the-next" if flips else "same-verdict-along-the-sequence")
+        if flips and len(order) <= 3:
+            ctx.sample("cross-rule", {"content": s, "rules": order, "verdicts": vs})
+
+    hyp_search(ctx, "one-string-under-several-rules", cross_cases(), body, n, shard=shard)
+
+
 def run(ctx):
     names = sorted(R.rules_dict)
     ctx.pmap(exact_task, [names[i::16] for i in range(16)])
     ctx.pmap(hyp_shard, range(16))
+    ctx.pmap(cross_shard, range(16))
 
 
 def replay(case):
     Node.store.clear()
+    if "sequence" in case:
+        try:
+            for rn in case["sequence"]:
+                if rn not in R.rules_dict:
+                    return None
+                kind = desc(rn)["typed"][0]
+                word = words_for(rn)[0]
+                check_case(rn, case["content"], word, verdict(rn, case["content"], bool(word),
+                                                              contentgen._float_verdict(kind, case["content"])), "cross-rule")
+        except Violation as v:
+            return f"{v.bucket}: {v.message}"
+        return None
     rn = case["rule"]
     if rn not in R.rules_dict:
         return None
